@@ -170,8 +170,8 @@ func declSnippets(src []byte) []string {
 				continue
 			}
 		}
-		l0, l1 := fset.Position(start).Line, fset.Position(d.End()).Line
-		if l0 < 1 || l1 > len(lines) {
+		l0, l1 := fset.PositionFor(start, false).Line, fset.PositionFor(d.End(), false).Line
+		if l0 < 1 || l1 > len(lines) || l0 > l1 {
 			continue
 		}
 		out = append(out, "package p\n\n"+strings.Join(lines[l0-1:l1], "\n")+"\n")
@@ -235,6 +235,31 @@ func checkC01(c *Ctx) {
 		mu.Lock()
 		nCanon++
 		mu.Unlock()
+		// the same file as generated code would have it: //line directives in front of code lines
+		// (kept only if the result is still a gofmt fixpoint)
+		for _, p := range perturbations {
+			if p.Name != "line-directives" {
+				continue
+			}
+			v := p.Fn(f.Src, rand.New(rand.NewSource(c.Seed+int64(i))))
+			if bytes.Equal(v, f.Src) || !isCanonical(v) {
+				continue
+			}
+			for _, e := range entryPoints(f.Path, v, false)[:2] {
+				key := f.Path + "|line-directives|" + e.Entry
+				c.Eval(key, true)
+				if e.Err != "" {
+					c.Fail(Finding{Sig: "roundtrip-fails", Input: key, What: e.Entry + " with //line directives: " + e.Err + " (" + f.Path + ")", Replay: obj{"kind": "c01snip", "src": string(v)}})
+				} else if !bytes.Equal(e.Out, v) {
+					sig, in := "roundtrip-bytes-differ", key
+					if unindentLineDirectives(e.Out) == unindentLineDirectives(v) {
+						// the only difference: a //line directive that stood in column 1 inside indented code is indented
+						sig, in = "line-directive-reindented", "line-directives|"+key
+					}
+					c.Fail(Finding{Sig: sig, Input: in, What: e.Entry + " with //line directives: " + diffAt(v, e.Out) + " (" + f.Path + ")", Replay: obj{"kind": "c01snip", "src": string(v)}})
+				}
+			}
+		}
 		results[i].snippets = declSnippets(f.Src)
 	})
 	c.Set("canonical_files", nCanon)
@@ -433,4 +458,14 @@ func validateLink(c *Ctx, items []traceItem) {
 	} else {
 		c.Set("model_conformance", true)
 	}
+}
+
+func unindentLineDirectives(b []byte) string {
+	lines := strings.Split(string(b), "\n")
+	for i, l := range lines {
+		if t := strings.TrimLeft(l, " \t"); strings.HasPrefix(t, "//line ") {
+			lines[i] = t
+		}
+	}
+	return strings.Join(lines, "\n")
 }
